@@ -64,6 +64,16 @@ def gen_tables(ctx, max_paths=3000, max_size=1500, same_names_as=None):
             stmts.append({"k": "Alias", "a": a, "b": t})
         na = "MyStable"
         stmts.append({"k": "Alias", "a": na, "b": stable[0]})   # non-decaying alias
+        # an alias *without* a Decay block of a particle that has one: as a daughter it is a stable name, whatever its target decays to
+        nb, nb_at = None, None
+        plain = [j for j in range(1, len(parts)) if parts[j] not in aliases]
+        if plain and r.random() < 0.4:
+            nb_at = r.choice(plain)
+            nb = "Bl" + parts[nb_at].replace("anti-", "a")
+            if L.label_ok(nb, g.models) and nb not in parts:
+                stmts.append({"k": "Alias", "a": nb, "b": parts[nb_at]})
+            else:
+                nb = None
         blocks = []
         for i, m in enumerate(parts):
             later = parts[i + 1:]
@@ -77,6 +87,8 @@ def gen_tables(ctx, max_paths=3000, max_size=1500, same_names_as=None):
                     fs.append(r.choice(later) if later and x < 0.55 else (na if x < 0.62 else r.choice(stable)))
                 if twin is not None and i == 0 and twin in later and r.random() < 0.7:
                     fs += [twin, parts[parts.index(twin) - 1]]      # both names of the particle below one mother
+                if nb is not None and i < nb_at and r.random() < 0.5:
+                    fs.insert(r.randint(0, len(fs)), nb)
                 if fs and r.random() < 0.3:
                     fs.append(fs[0])
                 mod = r.choice([("PHSP", []), ("VSS", []), ("HELAMP", ["1.0", "0.0", "-1.0", "0.5"]), ("SVS", []), ("VSS_BMIX", ["0.5"])])
